@@ -243,6 +243,18 @@ pub fn explore(scen: &'static Scenario, cfg: &RunCfg) -> RunResult {
             let samples = &samples;
             let cfg = cfg.clone();
             sc.spawn(move || {
+                // a panic that escapes the guards (machinery bug or an unguarded library call)
+                // must stop the other workers instead of leaving them waiting for this one
+                struct OnPanic<'a>(&'a AtomicBool, &'a Mutex<Option<String>>);
+                impl Drop for OnPanic<'_> {
+                    fn drop(&mut self) {
+                        if std::thread::panicking() {
+                            *self.1.lock() = Some("a worker thread panicked outside the panic guard".into());
+                            self.0.store(true, Ordering::Relaxed);
+                        }
+                    }
+                }
+                let _on_panic = OnPanic(stop, mach_err);
                 raft::verif::set_election_salt(0);
                 let mut local: Vec<Item> = vec![];
                 let mut ctx = Ctx::new();
